@@ -355,10 +355,64 @@ class FuncVerifier:
                 todo.extend(self.E.fe.classes[x].bases)
         return out
 
+    def note_term(self, st, term):
+        """make a ground term visible to E-matching (adds the harmless fact Trig(term))"""
+        if self.binders:
+            return
+        from .funcs import Trig
+        self.add_fact(st, Trig(term))
+
     def fresh_typed(self, st, base, ty):
         sv = self.E.fresh(base, ty)
         self.add_fact(st, self.typed_fact(sv.term, ty))
+        for f in self.deep_facts(sv.term, ty):
+            self.add_fact(st, f)
         return sv
+
+    def elem_typed(self, term, ety):
+        """typing of a boxed element"""
+        if ety.kind == 'int':
+            return P.tag(term) == P.TAG_INT
+        if ety.kind == 'bool':
+            return P.tag(term) == P.TAG_BOOL
+        return self.typed_fact(term, ety)
+
+    def deep_facts(self, term, ty, depth=3):
+        """quantified typing facts about the contents of a container value (types hold by construction)"""
+        out = []
+        if depth == 0:
+            return out
+        k = ty.kind
+        n = next(self.E.counter)
+        if k == 'opt':
+            inner = self.deep_facts(term, ty.args[0], depth)
+            return [z3.Implies(term != P.none, f) for f in inner]
+        if k in ('seq', 'tuple', 'set'):
+            ety = ty.args[0]
+            if k == 'set':
+                x = z3.Const('x!dt%d' % n, P.V)
+                inner = [self.elem_typed(x, ety)] + self.deep_facts(x, ety, depth - 1)
+                inner = [f for f in inner if not z3.is_true(f)]
+                if inner:
+                    out.append(z3.ForAll([x], z3.Implies(P.smem(term, x), z3.And(*inner)), patterns=[P.smem(term, x)]))
+            else:
+                i = z3.Int('i!dt%d' % n)
+                e = P.at(term, i)
+                inner = [self.elem_typed(e, ety)] + self.deep_facts(e, ety, depth - 1)
+                inner = [f for f in inner if not z3.is_true(f)]
+                if inner:
+                    out.append(z3.ForAll([i], z3.Implies(z3.And(0 <= i, i < P.slen(term)), z3.And(*inner)),
+                                         patterns=[e]))
+        elif k == 'map':
+            kty, vty = ty.args
+            x = z3.Const('k!dt%d' % n, P.V)
+            v = P.get(term, x)
+            inner = [self.elem_typed(x, kty), self.elem_typed(v, vty)] + self.deep_facts(v, vty, depth - 1)
+            inner = [f for f in inner if not z3.is_true(f)]
+            if inner:
+                out.append(z3.ForAll([x], z3.Implies(P.has(term, x), z3.And(*inner)),
+                                     patterns=[P.has(term, x), v]))
+        return out
 
     # ------------------------------------------------------------ truthiness / equality
     def truthy(self, sv):
@@ -390,6 +444,12 @@ class FuncVerifier:
         if ta.kind in ('int', 'bool') and tb.kind in ('int', 'bool'):
             if ta.kind != tb.kind:
                 a, b = coerce(a, INT), coerce(b, INT)
+            elif ta.kind == 'bool':
+                for x, y in ((a.term, b.term), (b.term, a.term)):
+                    if z3.is_true(x):
+                        return y
+                    if z3.is_false(x):
+                        return simp_not(y)
             return a.term == b.term
         if ta.is_none or tb.is_none:
             return box(a) == box(b)
@@ -773,17 +833,19 @@ class FuncVerifier:
                 return SV(P.drop(P.take(base.term, hi2), lo), bt)
             i = self.norm_index(base.term, node.slice, st, spec)
             self.safety(st, 'index', z3.And(0 <= i, i < P.slen(base.term)), node, spec)
-            return self.extract(st, P.at(base.term, i), bt.args[0])
+            return self.extract(st, P.at(base.term, i), bt.args[0], spec)
         if bt.is_map:
             k = self.ev(node.slice, st, spec)
             kt = box(k)
             self.safety(st, 'key', P.has(base.term, kt), node, spec)
-            return self.extract(st, P.get(base.term, kt), bt.args[1])
+            return self.extract(st, P.get(base.term, kt), bt.args[1], spec)
         self.err(node, 'subscript on %r' % bt)
 
-    def extract(self, st, term, ety):
+    def extract(self, st, term, ety, spec=False):
         """value taken out of a container/field: static type ety holds by construction"""
         sv = unbox(term, ety)
+        if spec or self.bound_env:
+            return sv
         tf = self.typed_fact(term, ety) if zsort(ety) == P.V else (
             P.tag(term) == (P.TAG_INT if ety.kind == 'int' else P.TAG_BOOL))
         if not z3.is_true(tf):
@@ -834,7 +896,7 @@ class FuncVerifier:
         val = z3.Select(arr, base.term)
         sv = SV(val, fty)
         tf = self.typed_fact(val, fty)
-        if not z3.is_true(tf) and not self.binders:
+        if not z3.is_true(tf) and not self.binders and not spec and not self.bound_env:
             self.add_fact(st, tf)
         return sv
 
@@ -876,6 +938,10 @@ class FuncVerifier:
                         pats.append(self.pattern_term(pe, st))
             return b, pats
         vars_, (b, pats) = self.with_binder(names, tys, body)
+        guards = [self.typed_fact(v, t) for v, t in zip(vars_, tys) if zsort(t) == P.V]
+        guards = [g for g in guards if not z3.is_true(g)]
+        if guards:
+            b = z3.Implies(z3.And(*guards), b) if is_forall else z3.And(*(guards + [b]))
         q = z3.ForAll if is_forall else z3.Exists
         return SV(q(vars_, b, patterns=pats) if pats else q(vars_, b), BOOL)
 
